@@ -50,6 +50,16 @@ CLAIMED = {
    text='Structural whole: each listing line prints the layout offset, the text and the same virtual getSize() that drives emission, the operand shown is getValue() (what emission encodes), offsets printed are the offsets at which bytes are written (all directive kinds/sequences x start residues), the listed size/operand is what the emitted prefix chain decodes to (all value classes), and both entry points print the object that would be emitted.',
    note='PADDING lines excluded (as in the property). The early-exit divergence described in the property text could not be reproduced on the pinned tree (listings described the - wrong - binary exactly); see DESIGN.md.',
    ref='DESIGN.md section 5, C17'),
+ 'C11': dict(
+   technique='static analysis: constructor-initialisation audit of every scalar member of xcmp/hexasm/hexutil/hex (clang AST) with per-member read protocols verified by CFG dataflow (must-precede, must-call, guard dominance); nondeterminism-source and static-state scan with positive-control fixture',
+   text='Structural whole: a member is either initialised by every constructor or exempted by a named protocol that is re-verified on every run (stream opened before the lexer is used, NUMBER-token guard on getNumber, token read first, frame set before code generation, stack offset assigned to every scoped symbol kind on all paths, val value read only under isConst); no unordered/pointer-keyed containers, pointer-to-integer casts, streamed pointers, getenv/rand/time/hash, no mutable static state. Determinism across heap states, environments and ASLR is exactly the absence of these shapes.',
+   note='Not decided: reads of uninitialised *local* buffers / out-of-bounds reads (e.g. a memcpy past a std::string) - that is UB analysis (C09), and one seeded change of this kind is missed (DESIGN.md). Trusted: clang AST; frozen PROTOCOL table.',
+   ref='DESIGN.md section 5, C11'),
+ 'C13': dict(
+   technique='static analysis: Verilator-XML symbolic evaluation under reset for all 256 bytes (registers cleared, write enable false); abstract interpretation of hextb.cpp run() on its own clock/reset/time scalars with adversarial DUT outputs, yielding the exact (time, clk, rst) schedule of eval() and handleSyscall() calls',
+   text='Clauses (necessary conditions for seed independence): under reset every architectural register is cleared and memory cannot be written for any instruction byte the power-on state may present; the testbench asserts reset at or before the first evaluated rising clock edge, evaluates inside reset, releases it, and services no system call before release; the image is loaded before the clock starts.',
+   note='Not decided: per-seed outcomes and Verilator\'s randomisation model. The repaired tree was additionally swept over 2000 seeds outside the check (0 deviations; 4 in 1500 before).',
+   ref='DESIGN.md section 5, C13'),
 }
 
 NOT_YET = 'engine not finished yet in this round (DESIGN.md section 7 build order); no check is registered, nothing is claimed'
